@@ -147,6 +147,12 @@ def gen_setter(rng, o, N, max_len=5, alias=False):
     L = rng.choice([N, N, 1, rng.randint(1, max_len)])
     if alias and rng.random() < 0.06:
         return {"op": "set_position", "o": o, "v": SELFPOS}
+    if alias and rng.random() < 0.08:
+        # re-assign exactly the current path, or the current path edge-padded by k entries (zero displacement)
+        k = rng.choice([0, 1, 2, 3])
+        if rng.random() < 0.5:
+            return {"op": "set_position", "o": o, "v": "$pad", "k": k}
+        return {"op": "set_orientation", "o": o, "r": "$pad", "k": k}
     if alias and rng.random() < 0.12:
         # re-assign almost the current value: the current path changed by a tiny displacement / rotation
         if rng.random() < 0.5:
@@ -178,6 +184,8 @@ def fit_start(rng, N, n, scalar):
 def gen_fit_op(rng, o, N, kinds=("move", "rotate", "setter"), forms=FORMS, alias=False):
     """a length-preserving path op for an object whose path has length N"""
     k = rng.choice([x for x in kinds if x != "reset"] or ["move"])
+    if alias and rng.random() < 0.04:
+        return {"op": rng.choice(["set_position", "set_orientation"]), "o": o, "v": "$pad", "r": "$pad", "k": 0}
     if alias and rng.random() < 0.1:
         if rng.random() < 0.5:
             return {"op": "set_position", "o": o, "v": "$near", "eps": [rng.choice([1e-6, -1e-7, 1e-9]), 0.0, 0.0]}
@@ -360,6 +368,8 @@ def _exec_path_op(obj, op):
                     v = obj.position
                 elif isinstance(v, str) and v == "$near":
                     v = obj._position + np.array(op["eps"], dtype=float)
+                elif isinstance(v, str) and v == "$pad":
+                    v = np.pad(obj._position, ((0, op["k"]), (0, 0)), "edge")
                 obj.position = _bad(op, "v", v)
             elif k == "set_orientation":
                 b = op.get("bad")
@@ -367,6 +377,9 @@ def _exec_path_op(obj, op):
                     obj.orientation = _badval(b["value"])
                 elif isinstance(op["r"], str) and op["r"] == "$near":
                     obj.orientation = R.from_rotvec(op["eps"]) * obj._orientation
+                elif isinstance(op["r"], str) and op["r"] == "$pad":
+                    q = obj._orientation.as_quat().reshape(-1, 4)
+                    obj.orientation = R.from_quat(np.pad(q, ((0, op["k"]), (0, 0)), "edge"))
                 else:
                     obj.orientation = orientation_value(op["r"])
             elif k == "reset_path":
@@ -506,6 +519,9 @@ def apply_to_model(m, op):
         if isinstance(op["v"], str) and op["v"] == "$near":
             m.set_position((np.array(m.P) + np.array(op["eps"], dtype=float)).tolist())
             return ("set", len(m))
+        if isinstance(op["v"], str) and op["v"] == "$pad":
+            m.set_position([p.tolist() for p in m.P] + [m.P[-1].tolist()] * op["k"])
+            return ("set", len(m))
         m.set_position(selfpos() if is_selfpos(op["v"]) else op["v"])
         return ("set", len(m))
     if k == "set_orientation":
@@ -515,6 +531,9 @@ def apply_to_model(m, op):
 
             e = R.from_rotvec(op["eps"]).as_quat()
             m.set_orientation([qmul(e, q) for q in m.Q])
+            return ("set", len(m))
+        if isinstance(r, str) and r == "$pad":
+            m.set_orientation([q.tolist() for q in m.Q] + [m.Q[-1].tolist()] * op["k"])
             return ("set", len(m))
         if r is None:
             # `None corresponds to a unit-rotation`: a single unit rotation; the position path is
